@@ -122,7 +122,8 @@ def gen_session(rng, backend, cross=False):
                         ever_measured.append(r)
             seg.append(op)
         segs.append(seg)
-    spec = dict(backend=backend, n=n, opts=OPTS[backend], segs=segs, args={"a": 0.25} if use_free else {})
+    spec = dict(backend=backend, n=n, opts=OPTS[backend], segs=segs, args={"a": 0.25} if use_free else {},
+                share=rng.random() < 0.4)
     need = er.needs_succ(spec)
     spec["succ"] = [need[j] or (j > 0 and rng.random() < 0.5) for j in range(nseg)]
     if any(need) and rng.random() < 0.35:
@@ -164,6 +165,39 @@ def gen_evolving(rng, backend):
     if rng.random() < 0.4:
         segs.append([g(rng.choice(live))])
     return dict(backend=backend, n=n, opts=OPTS[backend], segs=segs, args={}, succ=[False] + [True] * (len(segs) - 1))
+
+
+def gen_history(rng, backend):
+    """register histories that `can_follow` must tell apart / accept:
+    v1: p1 deletes its last subsystem, p2 is built INDEPENDENTLY over the remaining live modes (same live modes, other
+        deletion history) -> must be rejected;
+    v2: one fragment New -> gate -> Del run twice (run([p, p])) -> the second pass must be rejected;
+    v3: one fragment without New/Del (measurement + feed-forward inside) run two or three times -> accepted and equal
+        to the program with the commands repeated;
+    v4: p1 deletes a subsystem, p2 = Program(p1) successor (accepted), p3 independent over n modes (rejected)."""
+    n = rng.randint(2, 3)
+    g = lambda m: dict(cls="Rgate", regs=[m], pars=[pg.dyadic(rng, -6, 6, nonzero=True)], dagger=rng.random() < 0.3)
+    d = lambda m: dict(cls="Dgate", regs=[m], pars=[pg.dyadic(rng, -2, 2, nonzero=True) / 2, 0.25])
+    bs = lambda a, b: dict(cls="BSgate", regs=[a, b], pars=[0.375, 0.25], dagger=rng.random() < 0.3)
+    base = dict(backend=backend, n=n, opts=OPTS[backend], args={}, share=rng.random() < 0.5)
+    v = rng.choice(["v1", "v1", "v2", "v2", "v3", "v3", "v4"])
+    if v == "v1":
+        seg1 = [g(0)] + ([dict(cls="New", k=1), d(n - 1)] if rng.random() < 0.6 else [d(0)])
+        return dict(base, segs=[[d(rng.randrange(n)), dict(cls="Del", regs=[n - 1])], seg1], succ=[False, False],
+                    fresh=[None, n - 1])
+    if v == "v2":
+        frag = [dict(cls="New", k=1), d(n), bs(n, rng.randrange(n)), dict(cls="Del", regs=[n])]
+        return dict(base, segs=[frag], succ=[False], order=[0, 0])
+    if v == "v3":
+        m = rng.randrange(n)
+        t = rng.choice([x for x in range(n) if x != m])
+        frag = [d(m), bs(m, t), dict(cls="MeasureHomodyne", regs=[m], pars=[0.25], select=rng.choice([0.5, -0.25])),
+                dict(cls="Dgate", regs=[t], pars=[dict(m=m, k=rng.choice([1, -1, 0.5])), 0.0], dagger=rng.random() < 0.5), g(t)]
+        return dict(base, segs=[frag], succ=[False], order=[0] * rng.choice([2, 2, 3]))
+    dead = rng.randrange(n)
+    live = [x for x in range(n) if x != dead]
+    return dict(base, segs=[[g(dead), dict(cls="Del", regs=[dead])], [d(rng.choice(live))], [g(0), d(n - 1)]],
+                succ=[False, True, False])
 
 
 def cross_deps(spec):
@@ -211,12 +245,12 @@ def nontrivial(spec):
 
 # ------------------------------------------------------------------ running a pattern on the real engine
 
-def scripts(k):
-    ids = list(range(k))
+def scripts(ids):
+    ids = list(ids)
     return {
         "list": [dict(run=ids, aslist=True)],
         "seq": [dict(run=[i]) for i in ids],
-        "reset": [dict(run=[0]), dict(reset={}), dict(run=ids, aslist=True)],
+        "reset": [dict(run=[ids[0]]), dict(reset={}), dict(run=ids, aslist=True)],
         "rerun": [dict(run=ids, aslist=True), dict(fresh=True), dict(run=ids, aslist=True)],
     }
 
@@ -298,7 +332,21 @@ def compare_session(ctx, case, real, model):
         ctx.tally("corr:unmodelled")
         return
     if real["err"] is not None and real["in_call"]:
-        ctx.tally("corr:backend-raised")      # the numerical back end itself raised: outside the model
+        # the numerical back end itself raised inside an API call: the model (which knows nothing about the numerics) must
+        # have reached that call -- no model-level error at or before this step, same calls up to the failing one
+        ctx.tally("corr:backend-raised")
+        ctx.corr_cases += 1
+        k = len(real["steps"]) - 1
+        if len(msteps) <= k or any("err" in ms for ms in msteps[:k + 1]):
+            ctx.disagree(pair + " (model refuses a step the engine carried on with until the back end raised)", case,
+                         [s.get("err", "ok") for s in msteps], [s.get("err", "ok") for s in real["steps"]])
+            return
+        for j in range(k + 1):
+            mc = [er.model_call(c) for c in msteps[j]["calls"]]
+            rc = real["steps"][j]["calls"]
+            if (j < k and len(mc) != len(rc)) or len(mc) < len(rc) or not all(er.same_call(a, b) for a, b in zip(mc, rc)):
+                ctx.disagree(pair + f" (call trace up to the back-end failure, step {j})", case, mc, rc)
+                return
         return
     ctx.corr_cases += 1
     f = lambda q: q[0] / q[1]
@@ -342,20 +390,28 @@ def compare_session(ctx, case, real, model):
 def one_session(ctx, sf, spec, reqs, pending, kinds=("list", "seq", "cat", "reset", "rerun")):
     backend = spec["backend"]
     k = len(spec["segs"])
-    sc = scripts(k)
+    sc = scripts(er.run_order(spec))
+    coherent = er.coherent(spec)
+    allops = [o for j in er.run_order(spec) for o in spec["segs"][j]]
     results = {}
     case = dict(spec=spec)
     rp = dict(kind="session", spec=spec)
     ctx.count(f"session:{backend}:{k}seg", spec, nontrivial(spec), sample=spec)
     for pat in kinds:
-        if pat == "cat" and spec.get("mismatch"):
+        if pat == "cat" and not coherent:
             continue
-        if pat == "cat":
-            progs = [er.build_concat(sf, spec)]
-            script = [dict(run=[0])]
-        else:
-            progs = er.build_segments(sf, spec)
-            script = sc[pat]
+        cache = {} if spec.get("share") else None      # shared Operation instances within and across the programs
+        try:
+            if pat == "cat":
+                progs = [er.build_concat(sf, spec, cache)]
+                script = [dict(run=[0])]
+            else:
+                progs = er.build_segments(sf, spec, cache)
+                script = sc[pat]
+        except Exception as e:  # noqa: BLE001  -- a valid spec must be constructible
+            ctx.fail(f"program-construction-raised:{type(e).__name__}", f"{backend}: building the programs of a valid session "
+                     f"({pat}) raised {type(e).__name__}: {e}", rp)
+            return
         real = exec_script(sf, spec, progs, script)
         results[pat] = real
         ctx.tally(f"pattern:{pat}:" + (real["err"] or "ok"))
@@ -375,7 +431,7 @@ def one_session(ctx, sf, spec, reqs, pending, kinds=("list", "seq", "cat", "rese
     # ---- (C) a measurement with `select` leaves exactly the selected value in its RegRef (concatenated program)
     if "cat" in results and results["cat"]["err"] is None:
         last = {}
-        for op in [o for sg in spec["segs"] for o in sg]:
+        for op in allops:
             if er.kind_of(op["cls"]) == "meas":
                 sel = op.get("select")
                 sel = sel if isinstance(sel, (list, tuple)) else [sel] * len(op["regs"])
@@ -385,7 +441,7 @@ def one_session(ctx, sf, spec, reqs, pending, kinds=("list", "seq", "cat", "rese
                 for r in op["regs"]:
                     last.pop(r, None)
         lastm = {}
-        for op in [o for sg in spec["segs"] for o in sg]:
+        for op in allops:
             if er.kind_of(op["cls"]) == "meas":
                 sel = op.get("select")
                 sel = sel if isinstance(sel, (list, tuple)) else [sel] * len(op["regs"])
@@ -402,6 +458,21 @@ def one_session(ctx, sf, spec, reqs, pending, kinds=("list", "seq", "cat", "rese
             ctx.oracle_cases += 1
             if v is not None and (vals[r] is None or len(vals[r]) != 1 or abs(vals[r][0] - v) > 1e-9):
                 ctx.fail("selected-value-not-stored", f"{backend}: mode {r} was measured with select={v} but its RegRef holds {vals[r]}", rp)
+    # ---- (C) can_follow: a program is accepted after another exactly when its initial register (indices AND activity
+    # states, deleted subsystems included) is the final register of its predecessor -- in every sequencing pattern
+    fol = er.follows(spec)
+    for pat in ("list", "seq", "reset", "rerun"):
+        if pat not in results:
+            continue
+        ctx.oracle_cases += 1
+        err = results[pat]["err"]
+        if not all(fol) and err != "RuntimeError":
+            ctx.fail(f"cannot-follow-accepted:{pat}:{backend}", f"{backend}: pattern '{pat}' did not refuse (RuntimeError, register "
+                     f"mismatch) a program whose predecessor's final register (indices, activity) differs from the program's "
+                     f"initial one (follows={fol}); it " + ("ran it" if err is None else f"went on and raised {err}"), rp)
+        if all(fol) and err == "RuntimeError":
+            ctx.fail(f"can-follow-rejected:{pat}:{backend}", f"{backend}: pattern '{pat}' rejected a program whose initial register "
+                     "equals its predecessor's final register", rp)
     # ---- (C) the three patterns (+ reset, re-run) end in the same state
     if unmeasured_read(spec):
         ctx.tally("oracle:ill-formed (reads an unmeasured value)")
@@ -846,6 +917,8 @@ def run(ctx, sf):
                 spec = gen_mismatch(rng, backend)
             if k % 6 == 2 and backend != "bosonic":
                 spec = gen_evolving(rng, backend)
+            if k % 6 == 1 and backend != "bosonic":
+                spec = gen_history(rng, backend)
             one_session(ctx, sf, spec, reqs, pending)
             if k % 2 == 0:
                 reset_and_compile_checks(ctx, sf, spec)
